@@ -466,7 +466,7 @@ matricized / sparse classes. -/
 example : (Holder.dense (⟨[2, 3], [1, 0, 2, 0, 0, 3]⟩ : Dense Int)).WF :=
   ⟨rfl, by decide, by decide⟩
 example : chainValid 2 [Conv.toSptensor, .toSptenmat (some [1]) none (some .fc), .full, .toTensor,
-    .toTenmat none (some [0]) none, .toTensor] Kind.dense = true := by decide
+    .toTenmat none (some [0]) none, .toTensor] HKind.dense = true := by decide
 example : ∃ h', runChain [Conv.toSptensor, .toSptenmat (some [1]) none (some .fc), .full, .toTensor,
     .toTenmat none (some [0]) none, .toTensor] (Holder.dense (⟨[2, 3], [1, 0, 2, 0, 0, 3]⟩ : Dense Int)) = .ok h' ∧
     h'.shape = [2, 3] ∧ h'.WF ∧ ∀ i, InBounds [2, 3] i → h'.get i = (⟨[2, 3], [1, 0, 2, 0, 0, 3]⟩ : Dense Int).get i :=
